@@ -312,24 +312,37 @@ func Bound(c *core.Ctx, rule string, fns []*ssa.Function) {
 	c.Rule(rule, "in a literal that compares a captured counter with a bound (i < n) and also consults a captured source iterator (HasNext/Next), every such consultation is control-dependent on the comparison: once the bound is exhausted the source is not asked again (Take must not look ahead past n)")
 	n := 0
 	for _, fn := range fns {
-		if fn.Parent() == nil {
+		// closures (state in captured variables) and methods of a named iterator-state type (state in receiver fields)
+		if fn.Parent() == nil && fn.Signature.Recv() == nil {
 			continue
 		}
-		// comparisons between loads of two captured ints (free variables) / captured params
+		// the state cell behind a load: a captured variable, or a field of the receiver
+		stateCell := func(addr ssa.Value) (types.Type, bool) {
+			switch a := addr.(type) {
+			case *ssa.FreeVar:
+				if p, ok := a.Type().(*types.Pointer); ok {
+					return p.Elem(), true
+				}
+			case *ssa.FieldAddr:
+				if len(fn.Params) > 0 && a.X == ssa.Value(fn.Params[0]) && fn.Signature.Recv() != nil {
+					if p, ok := a.Type().(*types.Pointer); ok {
+						return p.Elem(), true
+					}
+				}
+			}
+			return nil, false
+		}
+		// comparisons between loads of two state ints
 		capturedInt := func(v ssa.Value) bool {
 			u, ok := v.(*ssa.UnOp)
 			if !ok || u.Op != token.MUL {
 				return false
 			}
-			fv, ok := u.X.(*ssa.FreeVar)
+			t, ok := stateCell(u.X)
 			if !ok {
 				return false
 			}
-			p, ok := fv.Type().(*types.Pointer)
-			if !ok {
-				return false
-			}
-			b, ok := p.Elem().Underlying().(*types.Basic)
+			b, ok := t.Underlying().(*types.Basic)
 			return ok && b.Info()&types.IsInteger != 0
 		}
 		var boundIfs []*ssa.BasicBlock
@@ -366,12 +379,12 @@ func Bound(c *core.Ctx, rule string, fns []*ssa.Function) {
 				if callee == nil || !(funcIs(callee, "fp", "Iterator.HasNext") || funcIs(callee, "fp", "Iterator.Next")) || len(call.Call.Args) == 0 {
 					continue
 				}
-				// receiver derives from a free variable
+				// receiver derives from a state cell (captured variable / receiver field)
 				recv := call.Call.Args[0]
 				if u, ok := recv.(*ssa.UnOp); ok {
 					recv = u.X
 				}
-				if _, ok := recv.(*ssa.FreeVar); !ok {
+				if _, ok := stateCell(recv); !ok {
 					continue
 				}
 				k++
